@@ -210,7 +210,11 @@ def main(argv=None):
             if violations:
                 import replay as R
                 for n, v in enumerate(violations):
-                    viol_lines.append(R.make_violation(prop, scratch, v, n, harness_reports))
+                    line = R.make_violation(prop, scratch, v, n, harness_reports)
+                    if line.startswith("VIOLATION"):
+                        viol_lines.append(line)
+                    else:
+                        undecided.append(line)
     except Undecided as e:
         undecided.append(str(e))
         viol_lines = []
